@@ -89,12 +89,17 @@ def integration_specs(tier):
     out = []
     vks = [["free", "free"], ["boxed", "free"], ["lower", "upper"], ["boxed", "boxed"]]
     rowsets = [[], [("affine", "eq0")], [("affine", "ranged")], [("sphere", "upper")], [("affine", "eqoff"), ("affine", "lower")]]
-    objs = ["qin", "qdiag"] if tier == "quick" else ["qin", "qdiag", "qfull", "exp"]
+    objs = ["qin", "qdiag", "qfull"] if tier == "quick" else ["qin", "qdiag", "qfull", "exp"]
     for vk in vks:
         for rows in rowsets:
             for obj in objs:
-                for x0i in ((2,) if tier == "quick" else (2, 0)):
+                for x0i in ((2, 1) if tier == "quick" else (2, 0, 1, 3)):   # 1 and 3 start on the bounds
                     out.append(S.mk(2, obj, rows, vk, x0_idx=x0i, tight=False))
+    # coupled convex QPs started ON an upper bound whose multiplier changes sign along the flow
+    for H, g, ub, x0 in (([[1.0, 1.0], [1.0, 2.0]], [-2.0, -1.0], ["inf", 0.0], [0.0, 0.0]), ([[1.0, 1.0], [1.0, 2.0]], [-1.0, -2.0], [0.0, "inf"], [0.0, 0.0]),
+                         ([[1.0, 1.0], [1.0, 2.0]], [-2.0, 1.0], ["inf", 0.0], [0.0, 0.0]), ([[2.0, 1.5], [1.5, 2.0]], [-3.0, 0.5], [4.0, 0.0], [0.0, 0.0]),
+                         ([[1.0, -0.8], [-0.8, 1.0]], [1.0, -2.0], [0.0, "inf"], [0.0, 0.0])):
+        out.append(G.raw(2, {"H": H, "g": g}, [], ["-inf", "-inf"], ub, x0, f"coupled_upper|{H}|{g}"))
     return out
 
 
